@@ -64,6 +64,21 @@ def run(ctx):
             c["id"] = f"C11-s{k}-{mode}"
             cases.append(c)
     _tempo.judge(ctx, cases, "C11", "seeded charts, sorted and with reordered sections", lookups=_lookups)
+    # very long maps: the governing event thousands of tempo events past the hint (an un-hinted query far into the map, the
+    # first event of a kind after thousands of tempo changes)
+    cases = []
+    for k, nt_ in enumerate(ctx.pick([1500, 3500], [1500, 3500, 10000, 30000])):
+        t, tempo = 0, []
+        for j in range(nt_):
+            tempo.append([t, r.choice([60000, 120000, 90500, 200000])])
+            t += r.randrange(1, 200)
+        far = [tempo[-1][0], tempo[-1][0] + 77, tempo[-2][0], tempo[nt_ // 2][0] + 1]
+        c = {"id": f"C11-vlong{k}", "res": 192, "sync": [("B", a, b) for a, b in tempo] + [("TS", 0, 4), ("TS", far[1], 3)],
+             "events": [("lyric", far[0]), ("section", far[1])],
+             "tracks": {"ExpertSingle": [("S", far[3], 5), ("N", far[2], 0, far[1] - far[2]), ("E", far[1], "solo")]}}
+        c["lookups"] = [(x, h) for x in far + [0, 5] for h in (0, 1, nt_ // 2, nt_ - 2, nt_ - 1, nt_)]
+        cases.append(c)
+    _tempo.judge(ctx, cases, "C11", "very long tempo maps", lookups=_lookups)
     if ctx.tier == "thorough":
         # bonus: the hinted forward scan is correct for EVERY map of <= 5 tempo events with unbounded ticks, every tick
         # and every hint (Apalache, spec/apalache/LookupScan.tla).  Recorded in the evidence; nothing depends on it.
